@@ -238,7 +238,28 @@ def run_cell(cell, seed):
                 fails.append({"sub": "gradient", "symptom": f"d objective / d {nm} != gradient of the dense definition: err={msg}", "detail": "", "features": feats})
     except Exception as e:
         fails.append({"sub": "gradient", "symptom": util.exc_str(e), "detail": "", "features": feats})
-    return {"fails": fails, "sig": "ok" if not fails else "mismatch", "features": feats, "ops": 2}
+    ops = 2
+    if cell["path"] == "chol" and not fails:
+        # the objective holds no state: the SAME model / objective objects, evaluated again after an optimiser-like parameter update
+        # (training mode throughout), give the dense definition for the new parameters
+        try:
+            models.perturb_(model, seed, "c02-again")
+            models.perturb_(model2, seed, "c02-again")
+            with torch.no_grad():
+                for mm in (model, model2):
+                    for name, p in mm.named_parameters():
+                        if "raw_noise" in name:
+                            p.clamp_(min=-2.0)
+                val2 = mll(model(X), y, X) if model.fam.startswith("fixednoise") else mll(model(X), y)
+                ref2, _ = dense_objective(model2, X2, y2, cell["obj"], tuple(cell["mb"]))
+            ops += 2
+            ok, msg = util.close(val2, ref2, 1e-9, 1e-9)
+            if not ok:
+                fails.append({"sub": "value-after-update", "symptom": f"objective re-evaluated after a parameter update != dense definition: err={msg}",
+                              "detail": "", "features": feats})
+        except Exception as e:
+            fails.append({"sub": "value-after-update", "symptom": util.exc_str(e), "detail": "", "features": feats})
+    return {"fails": fails, "sig": "ok" if not fails else "mismatch", "features": feats, "ops": ops}
 
 
 def run_summll(cell, seed, feats):
